@@ -1152,3 +1152,105 @@ def parse_value(sch, ty, toks, pos=0):
         x, pos = parse_value(sch, var['ty'], toks, pos + 1)
         return (vid, x), pos
     raise ValueError(ty)
+
+
+# ------------------------------------------------------------------ seeded random documents (thorough tier)
+
+KEY_BASE = ['string', 'i8', 'i16', 'i32', 'i64', 'bool', 'binary']
+VAL_BASE = ['bool', 'byte', 'i8', 'i16', 'i32', 'i64', 'double', 'string', 'binary']
+
+
+def random_doc(rng, name):
+    """a conservative random document: only references to earlier declarations (plus self recursion through
+    optional fields / lists), hashable keys, defaults of base kinds; avoids the generator defects of FINDINGS.md"""
+    items, structs, unions, enums, tdefs = [], [], [], [], []
+
+    def rand_ty(depth, allow_self=None):
+        c = rng.random()
+        if depth > 0 and c < 0.35:
+            k = rng.choice(['list', 'list', 'set', 'map'])
+            if k == 'list':
+                return L(rand_ty(depth - 1, allow_self))
+            if k == 'set':
+                return S(rng.choice(KEY_BASE + [R(e) for e in enums]))
+            return M(rng.choice(KEY_BASE + [R(e) for e in enums]), rand_ty(depth - 1, allow_self))
+        if c < 0.55 and (structs or unions or enums or tdefs):
+            return R(rng.choice(structs + unions + enums + tdefs))
+        return rng.choice(VAL_BASE)
+
+    def rand_default(ty):
+        if ty in ('i8', 'byte'):
+            return I(rng.randrange(-128, 128))
+        if ty == 'i16':
+            return I(rng.choice([0, -1, 32767, -32768, 1234]))
+        if ty == 'i32':
+            return I(rng.choice([0, 1, -1, 2147483647, -2147483648, 77]))
+        if ty == 'i64':
+            return I(rng.choice([0, -1, 9223372036854775807, -9223372036854775807, 5000000000]))   # i64::MIN is not accepted by the IDL parser
+        if ty == 'bool':
+            return rng.choice([I(0), I(1), I(2), ('bool', True), ('bool', False)])
+        if ty == 'double':
+            return rng.choice([I(3), I(-4), D('0.5'), D('-2.25'), D('1e10'), D('6.02e23')])
+        if ty == 'string':
+            return Str(rng.choice(['', 'plain', 'with space', 'q\\"q', "it\\'s", 'uni é日']), rng.choice(['"', "'"]))
+        if ty == 'binary':
+            return Str(rng.choice(['', 'bin', 'b\\nn']))
+        if isinstance(ty, tuple) and ty[0] == 'ref' and ty[1] in enums:
+            e = [it for it in items if it.name == ty[1]][0]
+            n, v = rng.choice(e.numbers())
+            return rng.choice([I(v), Id('%s.%s' % (e.name, n))])
+        if isinstance(ty, tuple) and ty[0] == 'list' and ty[1] in ('i32', 'i64', 'string'):
+            return LL(*[rand_default(ty[1]) for _ in range(rng.randrange(0, 3))])
+        return None
+
+    for k in range(rng.randrange(1, 3)):
+        n = 'Re%d' % k
+        vals = sorted(set(rng.choice([0, 1, 2, 5, -1, -7, 100, 70000, 2147483647]) for _ in range(rng.randrange(1, 6))))
+        rng.shuffle(vals)
+        items.append(Enum(n, [('M%d' % i, v) for i, v in enumerate(vals)]))
+        enums.append(n)
+    for k in range(rng.randrange(3, 7)):
+        kind = rng.choice(['struct', 'struct', 'struct', 'union', 'typedef'])
+        if kind == 'typedef':
+            n = 'Rt%d' % k
+            t = rand_ty(2)
+            if t == 'binary' or t == 'byte':
+                t = 'i32'
+            items.append(Typedef(n, t))
+            tdefs.append(n)
+        elif kind == 'union':
+            n = 'Ru%d' % k
+            ids = rng.sample([1, 2, 3, 7, 15, 16, 100, 3000], rng.randrange(1, 5))
+            fs = []
+            for i in ids:
+                t = rand_ty(2)
+                if isinstance(t, tuple) and t[0] == 'ref' and t[1] in unions:
+                    t = 'i32'          # by-value union-in-union cycles are not boxed (F-14b); keep unions flat
+                fs.append(F(i, 'v%d' % i, t))
+            items.append(Union(n, fs))
+            unions.append(n)
+        else:
+            n = 'Rs%d' % k
+            ids = rng.sample([1, 2, 3, 4, 5, 14, 15, 16, 17, 31, 127, 128, 1000, 32767], rng.randrange(0, 9))
+            fs = []
+            for i in ids:
+                req = rng.choice(['required', 'optional', 'default', 'default'])
+                c = rng.random()
+                if c < 0.12:
+                    t = R(n); req = 'optional'           # self recursion through an optional field
+                elif c < 0.2:
+                    t = L(R(n))
+                elif c < 0.25:
+                    t = 'uuid'
+                else:
+                    t = rand_ty(3)
+                d = rand_default(t) if rng.random() < 0.4 else None
+                fs.append(F(i, 'f%d' % i, t, req, d))
+            items.append(Struct(n, fs, exception=rng.random() < 0.1))
+            structs.append(n)
+    return Doc(name, items, style=rng.randrange(3))
+
+
+def random_docs(seed, n):
+    rng = random.Random(seed * 7919 + 17)
+    return [random_doc(rng, 'rnd%d' % i) for i in range(n)]
